@@ -105,21 +105,32 @@ func StatePredicates(prefix string) {
 		verifrt.Region(prefix+"reach:tx2-applied", S.Txs[NX-1].State == txAPPLIED)
 		verifrt.Region(prefix+"reach:tx2-failed-aborted", S.Txs[NX-1].State == txFAILED && txTerminal(1))
 	}
-	if NX > 2 {
-		// waypoint classes for three-transaction histories: the first two transactions have got this far, the third
-		// does not exist yet (the checker continues from one reachable state of each class)
-		fresh2, fresh3 := !S.Txs[1].Exists, !S.Txs[NX-1].Exists
-		t1C, t1A, t1F := S.Txs[0].State == txCOMMITTED, S.Txs[0].State == txAPPLIED, S.Txs[0].State == txFAILED
-		t2F := S.Txs[1].State == txFAILED
-		t2C := S.Txs[1].State == txCOMMITTED || S.Txs[1].State == txAPPLIED
-		verifrt.Region(prefix+"reach:w-C", t1C && fresh2 && fresh3)
-		verifrt.Region(prefix+"reach:w-A", t1A && fresh2 && fresh3)
-		verifrt.Region(prefix+"reach:w-F", t1F && fresh2 && fresh3)
-		verifrt.Region(prefix+"reach:w-CF", t1C && t2F && fresh3)
-		verifrt.Region(prefix+"reach:w-CC", t1C && t2C && fresh3)
-		verifrt.Region(prefix+"reach:w-AF", t1A && t2F && fresh3)
-		verifrt.Region(prefix+"reach:w-AC", t1A && t2C && fresh3)
-		verifrt.Region(prefix+"reach:w-FC", t1F && t2C && fresh3)
+	if NX == 2 || NX == 3 {
+		// waypoint classes: each transaction is fresh (-), committed but not applied (C), applied (A) or failed (F); the
+		// checker continues from one reachable state of a class (name: one letter per transaction, e.g. w-CF-)
+		var cls [3][4]bool
+		for i := 0; i < NX; i++ {
+			t := &S.Txs[i]
+			cls[i][0] = !t.Exists
+			cls[i][1] = t.State == txCOMMITTED
+			cls[i][2] = t.State == txAPPLIED
+			cls[i][3] = t.State == txFAILED
+		}
+		const letters = "-CAF"
+		for a := 1; a < 4; a++ {
+			for b := 0; b < 4; b++ {
+				if NX == 2 {
+					verifrt.Region(prefix+"reach:w-"+letters[a:a+1]+letters[b:b+1], cls[0][a] && cls[1][b])
+					continue
+				}
+				for c := 0; c < 4; c++ {
+					if b == 0 && c != 0 {
+						continue
+					}
+					verifrt.Region(prefix+"reach:w-"+letters[a:a+1]+letters[b:b+1]+letters[c:c+1], cls[0][a] && cls[1][b] && cls[2][c])
+				}
+			}
+		}
 	}
 	verifrt.Region(prefix+"reach:resynced-in-second-term", WithSync && S.Configs[0].Exists && S.Configs[0].Term >= 2 && S.Configs[0].AppliedTerm == S.Configs[0].Term && S.Configs[0].Applied > 0)
 	verifrt.Region(prefix+"reach:crashed", S.Crashes > 0)
@@ -204,6 +215,18 @@ func StatePredicates(prefix string) {
 	verifrt.Region(prefix+"bad:c02-merge-out-of-order", S.MergeOutOfOrder)
 	verifrt.Region(prefix+"bad:c02-send-before-merge", S.SendBeforeMerge)
 	verifrt.Region(prefix+"bad:c02-send-out-of-order", S.SendOutOfOrder)
+	// a proposal is reported APPLIED although its change never reached the device (C02: every accepted change is sent,
+	// in order; C04: the device converges to the stored configuration)
+	unsent := false
+	for t := 0; t < NT; t++ {
+		for i := 0; i < NX; i++ {
+			p := &S.Props[t][i]
+			if p.Exists && p.Apply.Present && p.Apply.State == int32(configapi.ProposalApplyPhase_APPLIED) && !S.Devs[t].Got[i] {
+				unsent = true
+			}
+		}
+	}
+	verifrt.Region(prefix+"bad:c02-applied-but-never-sent", unsent)
 	// ---- C06: rollbacks
 	if WithRollback {
 		restoredBad, inadmissible, devBad, rbCommitted, rbFailed := false, false, false, false, false
